@@ -120,7 +120,7 @@ def dispatch (op : String) (args : List SExp) : String :=
      | some src =>
         let showRest (s : Source) := bytesToHex (drainData s)
         if mode == "sync" then showParsed showRest (parseSync src)
-        else if mode == "async" then showParsed showRest (parseAsync src)
+        else if mode == "async" || mode == "async-deferred" then showParsed showRest (parseAsync src)
         else "(bad-arg)"
      | none => "(bad-arg)")
   | _, _ => (Ops2.dispatch2 op args).getD "(bad-op)"
